@@ -180,6 +180,7 @@ class Loop(object):
     self.finals = {}
     self.bad = None       # reason the loop is outside the modelled fragment
     self.order = []       # processing order of the nodes as produced by _make_sorted_work_items
+    self.edges = []       # node-level edges (dependent col, read col) of the dependency graph after the loop
 
 
 def _in_scope_cols(e):
@@ -247,6 +248,11 @@ def attach(e, priority=None):
           col = t.get_column(c)
           for r in sorted(t.row_ids):
             lp.finals[(c, r)] = col.raw_get(r)
+        if not hasattr(e.dep_graph, '_all_edges'):
+          raise core.TieBroken('instrumentation point depend.Graph._all_edges is gone')
+        lp.edges = sorted({(g.out_node.col_id, g.in_node.col_id) for g in e.dep_graph._all_edges
+                           if g.out_node.table_id == TABLE and g.in_node.table_id == TABLE
+                           and g.out_node.col_id in COLID and g.in_node.col_id in COLID})
         if lp.dirty0:
           loops.append(lp)
 
@@ -550,3 +556,7 @@ def run_cases_multi(ctx, name, imports, checks, cases, shard=60, timeout=600):
       if body:
         out[label].extend(k + int(tok.strip().replace('%nat', '')) for tok in body.split(';'))
   return {label: sorted(v) for label, v in out.items()}
+
+
+def coq_edges(lp):
+  return core.coq_list(['(%d, %d)' % (COLID[a], COLID[b]) for a, b in lp.edges])
